@@ -45,7 +45,7 @@ claim("C10",
       "explicit-state BFS over add histories of the real estimators, exact-rational reference oracle on every transition")
 
 claim("C15",
-      "Invariant checking on every reachable state of the C05 stream families from the first observation on: len/is_empty/p() read-back, quantile() NaN iff empty and otherwise inside the ghost [min,max], from five observations on serialised marker heights non-decreasing with first = running minimum and last = running maximum; constant streams to length 40/400; constructor grid (panic iff p outside [0,1] or NaN).",
+      "Invariant checking on every reachable state of the C05 stream families from the first observation on: len/is_empty/p() read-back, quantile() NaN iff empty and otherwise inside the ghost [min,max], from five observations on serialised marker heights non-decreasing with first = running minimum and last = running maximum; constant streams to length 40/400; constructor grid (panic iff p outside [0,1] or NaN); streams over {-1.7e308, 0, 1.7e308}, whose span overflows f64 (one genuine defect found there is recorded in known_findings.txt and reported as KNOWN-FINDING).",
       BOUNDED,
       "explicit-state BFS over add histories of the real estimator with state invariants and ghost min/max")
 
